@@ -75,6 +75,7 @@ func runC18(c *core.Ctx) {
 	runR1813(c)
 	runR1814(c)
 	runR1815(c)
+	runR1816(c)
 
 	// ---- R18.2
 	lockKey := "T:" + core.Mod + "/metrics.hist.lock*"
